@@ -19,10 +19,10 @@ ID = "C01"
 LEVEL = "exploration"
 RULE = (
     "per request kind of the ISO 14229-1 layout table: full Cartesian product of the per-field boundary alphabets "
-    "(uint 0,1,mid,max-1,max; sub-function boundaries x both suppress settings; SecurityAccess odd/even; nibbles; "
+    "(uint 0,1,mid,max-1,max; sub-function 0x00,1,2,0x40,0x41,0x7D,0x7E,0x7F x both suppress settings; SecurityAccess odd/even; nibbles; "
     "address/size widths {1,2,4,15} quick / 1..15 thorough with 0, smallest-needing-width, max per width, explicit and "
-    "computed format identifier; 0..3 (thorough 0..4) repeated groups in 3 value patterns, scalar shorthand; records of "
-    "0,1,2,300 bytes) on the request class found by introspection AND on the UDSClient method; plus one-parameter-out-"
+    "computed format identifier; 0..3 (thorough 0..4) repeated groups in 3 homogeneous + 2 heterogeneous value patterns (maxima of different fields in different groups), scalar shorthand; records of "
+    "0,1,2,300,4096 (thorough also 5000) bytes) on the request class found by introspection AND on the UDSClient method; plus one-parameter-out-"
     "of-range cases. evaluation = one (class|client method, parameter assignment); non-trivial = distinct "
     "(kind, reference PDU) pairs actually compared with bytes produced by gallia"
 )
@@ -31,7 +31,7 @@ ASSUMPTIONS = [
     "user-visible parameters are the constructor parameters / public attributes named like the table's fields",
     "the split between two adjacent variable-length records is not on the wire: compared as concatenation only",
     "classes declared ABC or with a leading underscore are base classes, not user-constructible request kinds",
-    "SecurityAccess types 0x00 and 0x7F (ISOSAEReserved) are neither required to encode nor to be refused",
+    "SecurityAccess types 0x00 and 0x7F (ISOSAEReserved) may be refused by a constructor; if accepted they must encode, parse back and dispatch like any other value",
 ]
 CHUNK = 1
 
@@ -261,6 +261,9 @@ def check_object(res: Result, kind: T.Kind, cls: Any, vals: dict[str, Any], kw: 
     try:
         obj = cls(**kw)
     except Exception as e:  # noqa: BLE001  (gallia refusing a valid parameter set is the observation)
+        if any(isinstance(f, T.SUBQ) and f.name and vals.get(f.name) in f.reserved() for f in kind.req):
+            res.count("reserved_value_refused")  # ISOSAEReserved sub-function: refusing it is admissible
+            return
         res.violate(f"C01|{cn}|construct-raises|{type(e).__name__}{sfx}", f"in-range parameters refused: {describe(kw)}: {e!r}", rp)
         first = type(e).__name__
     if obj is not None:
